@@ -179,13 +179,14 @@ class WithStatement(TypedExpression):
             body_sep = "\n"
             body_str = self.body.rebuild(indent=indent, inline=False)
         else:
-            inline_body = self.body.rebuild(indent=indent, inline=True)
-            if "\n" in inline_body:
+            # One rendering decides: a body that fits on a line is the same text
+            # with and without its indentation prefix.
+            body_str = self.body.rebuild(indent=indent, inline=False)
+            if "\n" in body_str:
                 body_sep = "\n"
-                body_str = self.body.rebuild(indent=indent, inline=False)
             else:
                 body_sep = " "
-                body_str = inline_body
+                body_str = body_str.lstrip(" ")
 
         semicolon_comment_str = format_inline_comment_suffix(
             self.after_semicolon_comments
